@@ -203,7 +203,7 @@ pub open spec fn all_valid_tr(f: &Fsm, ts: Seq<u32>) -> bool {
 
 /// the part of "legal configuration" every function needs: members are valid state ids
 pub open spec fn wf_config(f: &Fsm, g: &GlobalData) -> bool {
-    all_valid(f, g.configuration.data@)
+    all_valid(f, g.configuration.data@) && forall|i: int| 0 <= i < g.configuration.data@.len() ==> !is_history(f, #[trigger] g.configuration.data@[i])
 }
 
 pub proof fn lemma_fca_member(f: &Fsm, cands: Seq<u32>, others: Seq<u32>)
